@@ -22,8 +22,10 @@ pub enum Health {
     Broken,
     NotUtf8,
     Directory,
+    /// healthy, but its source holds another library definition in front of it
+    SecondInSource,
 }
-pub const HEALTHS: [Health; 7] = [Health::Healthy, Health::Missing, Health::FaultingBody, Health::WrongName, Health::Broken, Health::NotUtf8, Health::Directory];
+pub const HEALTHS: [Health; 8] = [Health::Healthy, Health::Missing, Health::FaultingBody, Health::WrongName, Health::Broken, Health::NotUtf8, Health::Directory, Health::SecondInSource];
 const NAMES: [&str; 3] = ["la", "lb", "lc"];
 
 #[derive(Clone, Debug)]
@@ -68,13 +70,13 @@ pub struct Space {
 
 fn health_assignments(n: usize, at_most_one_unhealthy: bool) -> Vec<Vec<Health>> {
     let mut out = vec![];
-    let total = 7usize.pow(n as u32);
+    let total = HEALTHS.len().pow(n as u32);
     for k in 0..total {
         let mut v = vec![];
         let mut x = k;
         for _ in 0..n {
-            v.push(HEALTHS[x % 7]);
-            x /= 7;
+            v.push(HEALTHS[x % HEALTHS.len()]);
+            x /= HEALTHS.len();
         }
         if at_most_one_unhealthy && v.iter().filter(|h| **h != Health::Healthy).count() > 1 {
             continue;
@@ -196,7 +198,7 @@ pub fn reference_outcome(c: &Config, x: usize, registered: bool) -> BTreeSet<Str
 fn effective(h: Health, registered: bool) -> Health {
     if registered {
         match h {
-            Health::Healthy | Health::FaultingBody => h,
+            Health::Healthy | Health::FaultingBody | Health::SecondInSource => h,
             _ => Health::Missing,
         }
     } else {
@@ -215,6 +217,11 @@ fn kind_name(k: &ErrKind) -> String {
     }
 }
 
+/// another, unrelated library definition in front of the wanted one
+fn with_other_first(src: &str) -> String {
+    format!("(define-library (unrelated other) (export uo) (begin (define uo 77)))\n{}", src)
+}
+
 fn write_config(c: &Config, dir: &std::path::Path) {
     let _ = std::fs::remove_dir_all(dir);
     std::fs::create_dir_all(dir).expect("scratch dir");
@@ -222,6 +229,7 @@ fn write_config(c: &Config, dir: &std::path::Path) {
         let p = dir.join(format!("{}.sld", NAMES[i]));
         match c.health[i] {
             Health::Healthy => std::fs::write(&p, lib_source(c, i, NAMES[i], false)).unwrap(),
+            Health::SecondInSource => std::fs::write(&p, with_other_first(&lib_source(c, i, NAMES[i], false))).unwrap(),
             Health::Missing => {}
             Health::FaultingBody => std::fs::write(&p, lib_source(c, i, NAMES[i], true)).unwrap(),
             Health::WrongName => std::fs::write(&p, lib_source(c, i, "zzz", false)).unwrap(),
@@ -245,13 +253,20 @@ pub struct HistoryResult {
 
 /// one history of import attempts on ONE interpreter
 pub fn run_history(c: &Config, hist: &[usize], registered: bool, dir: &std::path::Path) -> HistoryResult {
-    let mut it = Interp::bare().expect("interpreter");
+    let mut it = Interp::must_bare();
     if registered {
         for i in 0..c.n {
-            match effective(c.health[i], true) {
-                Health::Healthy => it.it.register_library_factory(LibraryFactory::from_char_stream(&lib_name(i), lib_source(c, i, NAMES[i], false).chars()).expect("source")),
-                Health::FaultingBody => it.it.register_library_factory(LibraryFactory::from_char_stream(&lib_name(i), lib_source(c, i, NAMES[i], true).chars()).expect("source")),
-                _ => {}
+            let src = match effective(c.health[i], true) {
+                Health::Healthy => lib_source(c, i, NAMES[i], false),
+                Health::SecondInSource => with_other_first(&lib_source(c, i, NAMES[i], false)),
+                Health::FaultingBody => lib_source(c, i, NAMES[i], true),
+                _ => continue,
+            };
+            // a well-formed source that defines the library must be accepted by the registry
+            match crate::drive::guarded(|| LibraryFactory::from_char_stream(&lib_name(i), src.chars())) {
+                Ok(Ok(f)) => it.it.register_library_factory(f),
+                Ok(Err(e)) => return HistoryResult { attempts: vec![(i, format!("the source of ({}) is rejected by LibraryFactory::from_char_stream: {}", NAMES[i], e), false)] },
+                Err(p) => return HistoryResult { attempts: vec![(i, format!("PANIC while registering the source of ({}): {}", NAMES[i], p), false)] },
             }
         }
         // no file may be found for a missing registered library
@@ -392,6 +407,76 @@ pub fn worker(args: &[String]) {
     let _ = h.join();
 }
 
+/// Histories of PROGRAM FILES on one interpreter: every ordered sequence of up to three programs
+/// from three directories (each program only imports a library that lives next to it; the other
+/// directories and the working directory hold same-named decoys with other values). Each library
+/// must be found next to the program that imports it.
+fn two_program_directories(acc: &mut Acc) {
+    let base = std::path::PathBuf::from(format!("/verif/target/scratch/c14-programs-{}", std::process::id()));
+    let _ = std::fs::remove_dir_all(&base);
+    let dirs: Vec<std::path::PathBuf> = (0..3).map(|d| base.join(format!("dir{}", d))).collect();
+    for (d, dir) in dirs.iter().enumerate() {
+        std::fs::create_dir_all(dir).unwrap();
+        std::fs::write(dir.join("prog.scm"), format!("(import ({}))\n", NAMES[d])).unwrap();
+        for i in 0..3 {
+            // the right value next to its own program, decoy values (900 + ...) elsewhere
+            let v = if i == d { (i + 1) as i64 } else { 900 + (10 * d + i) as i64 };
+            std::fs::write(dir.join(format!("{}.sld", NAMES[i])), format!("(define-library ({0}) (export v{0}) (begin (define v{0} {1})))\n", NAMES[i], v)).unwrap();
+        }
+    }
+    let cwd = base.join("cwd");
+    std::fs::create_dir_all(&cwd).unwrap();
+    for i in 0..3 {
+        std::fs::write(cwd.join(format!("{}.sld", NAMES[i])), format!("(define-library ({0}) (export v{0}) (begin (define v{0} {1})))\n", NAMES[i], 800 + i)).unwrap();
+    }
+    let old_cwd = std::env::current_dir().ok();
+    let _ = std::env::set_current_dir(&cwd);
+    let mut seqs: Vec<Vec<usize>> = vec![];
+    for a in 0..3 {
+        seqs.push(vec![a]);
+        for b in 0..3 {
+            if b != a {
+                seqs.push(vec![a, b]);
+                for c in 0..3 {
+                    if c != a && c != b {
+                        seqs.push(vec![a, b, c]);
+                    }
+                }
+            }
+        }
+    }
+    for seq in seqs {
+        let mut it = Interp::must_bare();
+        let mut obs = vec![];
+        let mut ok = true;
+        for (k, d) in seq.iter().enumerate() {
+            let prog = dirs[*d].join("prog.scm");
+            let i = &mut it.it;
+            let r = crate::drive::guarded(|| i.eval_file(prog));
+            acc.evals += 1;
+            acc.transitions += 1;
+            let bound: BTreeMap<String, String> = {
+                let mut defs = it.it.env.iter_local_definitions();
+                (&mut *defs).map(|(n, v)| (n.clone(), format!("{}", v))).collect()
+            };
+            let name = format!("v{}", NAMES[*d]);
+            let good = matches!(r, Ok(Ok(_))) && bound.get(&name) == Some(&format!("{}", d + 1));
+            obs.push(format!("program {} in {}: {} ; {} = {:?}", k + 1, dirs[*d].file_name().unwrap().to_string_lossy(), match &r { Ok(Ok(_)) => "ok".to_string(), Ok(Err(e)) => format!("error {}", e), Err(p) => format!("PANIC {}", p) }, name, bound.get(&name)));
+            ok &= good;
+        }
+        if !ok {
+            acc.mismatch(
+                Mismatch { idx: u64::MAX - 100, case: format!("[program files on one interpreter] directories {:?}", seq), expected: ": every program finds the library that lives next to it (values 1, 2, 3; decoys are 8xx / 9xx)".into(), observed: obs.join(" | "), payload: json!({"programs": seq}) },
+                None,
+            );
+        }
+    }
+    if let Some(c) = old_cwd {
+        let _ = std::env::set_current_dir(c);
+    }
+    let _ = std::fs::remove_dir_all(&base);
+}
+
 pub fn run(ctx: &Ctx) -> i32 {
     let sp = Space::new(ctx.thorough());
     let total = sp.total();
@@ -424,6 +509,7 @@ pub fn run(ctx: &Ctx) -> i32 {
             );
         }
     }
+    two_program_directories(&mut acc);
     // a configuration that killed its worker: importing did not terminate normally
     for d in &res.deaths {
         covered[d.index as usize] = covered[d.index as usize].saturating_add(1);
@@ -449,7 +535,7 @@ pub fn run(ctx: &Ctx) -> i32 {
             tier: ctx.tier_name(),
             seed: ctx.seed,
             exhaustive: true,
-            rule: format!("every directed graph (self-loops allowed) on 1 and 2 libraries with every assignment of 7 node healths (healthy, missing, faulting body, wrong name in file, syntactically broken, not UTF-8, path is a directory); every graph on 3 libraries (512) with {}; the library-to-library edges written as plain names and, for all configurations on <= 2 libraries and the all-healthy graphs on 3, as only / prefix / rename / except / mixed import sets; for each configuration every history of import attempts on one interpreter (length 3 on <= 2 libraries{}; maximal histories cover their prefixes), with the libraries as files under the program directory (decoy libraries with other values in the working directory) and as registered sources; states = configurations, transitions = import attempts", if ctx.thorough() { "every health assignment (343)" } else { "at most one unhealthy node (19 assignments)" }, if ctx.thorough() { ", length 3 on 3 libraries with at most one unhealthy node, otherwise 2" } else { ", length 2 on 3 libraries" }),
+            rule: format!("every directed graph (self-loops allowed) on 1 and 2 libraries with every assignment of 8 node healths (healthy, missing, faulting body, wrong name in file, syntactically broken, not UTF-8, path is a directory, healthy behind another library definition in the same source); every graph on 3 libraries (512) with {}; the library-to-library edges written as plain names and, for all configurations on <= 2 libraries and the all-healthy graphs on 3, as only / prefix / rename / except / mixed import sets; for each configuration every history of import attempts on one interpreter (length 3 on <= 2 libraries{}; maximal histories cover their prefixes), with the libraries as files under the program directory (decoy libraries with other values in the working directory) and as registered sources; states = configurations, transitions = import attempts; plus every sequence of <= 3 program files from three directories evaluated on one interpreter (each imports a library that lives next to it, decoys everywhere else)", if ctx.thorough() { "every health assignment (512)" } else { "at most one unhealthy node (22 assignments)" }, if ctx.thorough() { ", length 3 on 3 libraries with at most one unhealthy node, otherwise 2" } else { ", length 2 on 3 libraries" }),
             bounds: json!({"configurations": total, "worker_deaths": res.deaths.len()}),
             assumptions: vec!["reference loader: cyclic-import error iff a cycle is reachable through readable libraries, the underlying error kind iff an unhealthy library is reachable, either when both, success otherwise; shared dependencies are not cycles".into(), "hook H2 (verif_in_progress) gives the in-progress set".into()],
             wall_s: ctx.elapsed(),
@@ -464,6 +550,14 @@ pub fn run(ctx: &Ctx) -> i32 {
 }
 
 pub fn replay(p: &serde_json::Value) -> bool {
+    if p.get("programs").is_some() {
+        let mut acc = Acc::new();
+        two_program_directories(&mut acc);
+        for v in &acc.violations {
+            println!("{}\n  {}", v.case, v.observed);
+        }
+        return acc.n_violations > 0;
+    }
     let thorough = p["tier"] == "thorough";
     let sp = Space::new(thorough);
     let h3 = sp.h3();
